@@ -185,6 +185,7 @@ func main() {
 	rep := report{Property: *prop, Tier: *tier, Seed: *seed, Tags: map[string]int{}, ResultKinds: map[string]int{}}
 	seen := map[[32]byte]bool{}
 	shrunkSig := map[string]bool{}
+	var ntHashes []string // hashes of the distinct non-trivial cases (unioned over the passes of a thorough run)
 	// a sample of the run is evaluated a second time at the very end: the callbacks and codecs under test
 	// are functions of their arguments, so a result that depends on what was called before is a defect
 	// (package-level buffers, pools, caches) even if each single evaluation looks right
@@ -239,6 +240,7 @@ func main() {
 			rep.Distinct++
 			if nontrivial {
 				rep.DistinctNontrivial++
+				ntHashes = append(ntHashes, hex.EncodeToString(h[:12]))
 			}
 		}
 		if !c.ModelSkip {
@@ -334,6 +336,7 @@ func main() {
 	}
 	b, _ := json.MarshalIndent(rep, "", " ")
 	os.WriteFile(filepath.Join(*out, "report.json"), b, 0o644)
+	os.WriteFile(filepath.Join(*out, "nontrivial_hashes.txt"), []byte(strings.Join(ntHashes, "\n")), 0o644)
 	keys := make([]string, 0, len(rep.Tags))
 	for k := range rep.Tags {
 		keys = append(keys, k)
